@@ -333,6 +333,23 @@ def run_imp_case(kind, m, with_layer):
     return viol
 
 
+def history_key(case):
+    """second run in one process: one world per mode (good), one bad world per
+    mode family, one child fault"""
+    if len(case) == 6 and case[0] == 'N1B2C1' and not case[2] and not case[3]:
+        bad = [s for s in case[1] if s != 'pass']
+        if case[5] is None and not bad and case[4] in ('seq', 'j2', 'rep2', 'j2vv', 't', 'q'):
+            return ('good', case[4])
+        if case[5] is None and bad == ['fail'] and case[4] in ('seq', 'j2'):
+            return ('bad', case[4])
+        if case[5] and case[5][1] == 'empty' and not bad and case[4] == 'j2':
+            return ('cf', 'empty')
+    return None
+
+
+HISTORY_MAX = 9
+
+
 def run_case(case):
     if case[0] == 'crash':
         from vt.props import c07
